@@ -52,7 +52,7 @@ ASSUMPTIONS = [
     "bounded time = number of driver read calls <= 10 x fault-free device->host length + 1000 (logical, virtual clock)",
 ]
 REQUIRED_COUNTERS = ["memory_lists", "mboot_ops_judged", "mboot_fault_runs", "mboot_status_mirror", "transcript_ops_checked",
-                     "sdp_ops_judged", "sdp_fault_runs", "sdps_files"]
+                     "sdp_ops_judged", "sdp_fault_runs", "sdps_files", "sdps_family_switches"]
 CASE_TIMEOUT_S = 600
 WATCHDOG_S = {"quick": 1500, "thorough": 7200}
 
@@ -1694,6 +1694,60 @@ def run_sdps_case(ctx, family, rng):
     bp.HID_REPORT.update(_PRISTINE_HID_REPORT)
 
 
+def run_sdps_family_switch(ctx, families, rng):
+    """ONE SDPS object serves several boards in turn (``sdps.family = ...`` is a public setter): every file is framed with
+    the protocol parameters of the family that is set NOW (command block or not, report size)."""
+    import spsdk.sdp.protocol.bulk_protocol as bp
+    from spsdk.sdp.interfaces.usb import SdpUSBInterface
+    from spsdk.sdp.sdps import SDPS
+    from spsdk.utils.database import DatabaseManager
+
+    if len(families) < 2:
+        return
+    seq = [core.pick(rng, families) for _ in range(6)]
+    seq[1] = next(f for f in families if f != seq[0])
+    bp.HID_REPORT.clear()
+    bp.HID_REPORT.update(_PRISTINE_HID_REPORT)
+    link = Link(None, stream=False)
+    s = None
+    hist = []
+    for step, family in enumerate(seq):
+        params = DatabaseManager().db.devices.get(family).info.isp.rom.protocol_params
+        no_cmd, pack = params.get("no_cmd", True), params.get("hid_pack_size", 1020)
+        dev = SD.SdpsHid(no_cmd=no_cmd, pack_size=pack)
+        link.dev = dev
+        link.reads = 0
+        if s is None:
+            s = SDPS(SdpUSBInterface(_usb_device(link)), family)
+        else:
+            s.family = family
+        n = core.pick(rng, [1, pack - 1, pack, pack + 1, 2 * pack + 5, rng.randrange(1, 9000)])
+        data = core.rand_bytes(rng, n)
+        s.open()
+        s.write_file(data)
+        s.close()
+        ctx.count("sdps_files")
+        ctx.count("sdps_family_switches")
+        hist.append(family)
+        det = {"families_served_by_the_object": list(hist), "family": family, "no_cmd": no_cmd, "pack_size": pack, "length": n,
+               "reports": dev.reports[:4], "anomalies": dev.anomalies[:4]}
+        rec = bytes(dev.received)
+        bad = None
+        if dev.anomalies:
+            bad = "sdps-report-anomaly"
+        elif not no_cmd and (dev.cbw is None or dev.cbw["signature"] != 0x43544C42 or dev.cbw["length"] != n or dev.cbw["command"] != 2):
+            bad = "sdps-command-block-wrong"
+        elif rec[:n] != data or any(rec[n:]) or len(rec) - n >= pack:
+            bad = "sdps-image-not-delivered-intact"
+        if bad:
+            ctx.violation(bad + "-after-family-switch" if step else bad, det)
+            break
+    else:
+        ctx.ok(["sdps", "family-switch", len(set(seq))], sample={"families": seq})
+    bp.HID_REPORT.clear()
+    bp.HID_REPORT.update(_PRISTINE_HID_REPORT)
+
+
 # =============================================================================================
 # framework entry points
 # =============================================================================================
@@ -1877,7 +1931,10 @@ def run_case(case, ctx):  # noqa: C901
     if kind == "sdps":
         from spsdk.sdp.sdps import SDPS
 
-        for fam in SDPS.get_supported_families() or SDPS_FAMILIES_FALLBACK:
+        fams = SDPS.get_supported_families() or SDPS_FAMILIES_FALLBACK
+        for fam in fams:
             run_sdps_case(ctx, fam, rng)
+        for _ in range(3):
+            run_sdps_family_switch(ctx, fams, rng)
         return None
     raise core.Inconclusive(f"unknown case kind {kind}")
